@@ -271,23 +271,26 @@ func c06Atomic(run *common.Run) {
 // use) with failing entries at PRNG positions, among them positions 1000, 1001 and the last one: exactly one status per
 // entry, the failing entries (valid mutations before the invalid one) left their rows untouched, every other entry is
 // applied.
-func c06BigBatch(run *common.Run) {
+func c06BigBatch(run *common.Run) { bigBatchPart(run, "bigbatch") }
+
+// bigBatchPart is shared by C01 (per-entry status of invalid entries) and C06 (failing entries leave no trace).
+func bigBatchPart(run *common.Run, sub string) {
 	for ei, engine := range drive.Engines {
 		for c := 0; c < run.N(2, 12); c++ {
 			idx := ei*100 + c
-			if !run.Want("bigbatch", idx) || run.TooMany() {
+			if !run.Want(sub, idx) || run.TooMany() {
 				continue
 			}
 			r := run.Rand("C06.bigbatch", c)
 			srv, err := drive.Start(engine, gen.BaseClock, "")
 			if err != nil {
-				run.Violation("bigbatch", idx, "cannot start server: "+err.Error(), nil)
+				run.Violation(sub, idx, "cannot start server: "+err.Error(), nil)
 				return
 			}
 			table := drive.MustTable(srv.Admin, "t", "f1", "f2")
 			m := model.NewTable("f1", "f2")
 			n := r.Range(1001, 2600)
-			failAt := map[int]bool{1000: true, 1001: r.Bool(), n - 1: true, r.Intn(1000): true}
+			failAt := map[int]bool{1000: true, 1001: r.Bool(), n - 1: true, r.Intn(1000): true, 500: r.Bool(), 501 + r.Intn(400): true, 256: r.Bool()}
 			for i := 0; i < 12; i++ {
 				failAt[r.Intn(n)] = true
 			}
@@ -327,7 +330,7 @@ func c06BigBatch(run *common.Run) {
 				}
 			}
 			if bad != "" {
-				run.Violation("bigbatch", idx, bad+" | "+desc, map[string]any{"engine": engine, "case": desc})
+				run.Violation(sub, idx, bad+" | "+desc, map[string]any{"engine": engine, "case": desc})
 			}
 			run.Case(common.Hash64("bigbatch", desc), true)
 			run.Count("big_batch_entries", int64(n))
